@@ -18,6 +18,7 @@ import (
 	"fmt"
 	"io"
 	"math/big"
+	"mime/multipart"
 	"net"
 	"net/http"
 	"net/http/httptest"
@@ -28,6 +29,7 @@ import (
 	"testing"
 	"time"
 
+	"github.com/Cloud-Foundations/keymaster/lib/certgen"
 	"github.com/Cloud-Foundations/keymaster/lib/server/aws_identity_cert"
 	"github.com/Cloud-Foundations/keymaster/lib/webapi/v0/proto"
 	"github.com/go-jose/go-jose/v4"
@@ -259,6 +261,8 @@ type vfC10Env struct {
 	sshRE    *regexp.Regexp
 	userCook *http.Cookie
 	admCook  *http.Cookie
+	roleCA    *x509.Certificate
+	credLeafs map[string]*x509.Certificate
 }
 
 func vfC10Setup(t *testing.T) (*vfC10Env, func()) {
@@ -267,6 +271,12 @@ func vfC10Setup(t *testing.T) (*vfC10Env, func()) {
 	state.Config.Base.AllowedAuthBackendsForWebUI = []string{proto.AuthTypePassword}
 	state.Config.Base.AutomationUsers = []string{"role1"}
 	state.Config.Base.AutomationAdmins = []string{"admin1"}
+	return vfC10EnvFromState(t, state), cleanup
+}
+
+// everything of the environment that is not configuration: an Ed25519 signer, the AWS issuer with a canned STS
+// answer, an IP-restricted credential, session cookies
+func vfC10EnvFromState(t *testing.T, state *RuntimeState) *vfC10Env {
 	_, edPriv, err := ed25519.GenerateKey(rand.Reader)
 	if err != nil {
 		t.Fatal(err)
@@ -305,8 +315,31 @@ func vfC10Setup(t *testing.T) (*vfC10Env, func()) {
 	env := &vfC10Env{state: state,
 		ipChain:  &tls.ConnectionState{VerifiedChains: [][]*x509.Certificate{{leaf, caCert}}, PeerCertificates: []*x509.Certificate{leaf}},
 		userCook: vfAuthCookie(t, state, "username", AuthTypePassword),
-		admCook:  vfAuthCookie(t, state, "admin1", AuthTypePassword)}
-	return env, cleanup
+		admCook:  vfAuthCookie(t, state, "admin1", AuthTypePassword),
+		roleCA:   caCert, credLeafs: map[string]*x509.Certificate{}}
+	return env
+}
+
+// an IP-restricted credential for role1 / 10.0.0.0/8 whose OWN key is the one `spec` describes (as a certificate
+// from another trusted client CA, or one issued before key strength was enforced, could be)
+func (env *vfC10Env) credentialWithKey(spec string) (*tls.ConnectionState, bool) {
+	leaf := env.credLeafs[spec]
+	if leaf == nil {
+		_, pub, ok := vfPKIX(spec)
+		if !ok {
+			return nil, false
+		}
+		_, nb, _ := net.ParseCIDR("10.0.0.0/8")
+		der, err := certgen.GenIPRestrictedX509Cert("role1", pub, env.roleCA, env.state.Signer, []net.IPNet{*nb}, time.Hour, nil, nil)
+		if err != nil {
+			return nil, false
+		}
+		if leaf, err = x509.ParseCertificate(der); err != nil {
+			return nil, false
+		}
+		env.credLeafs[spec] = leaf
+	}
+	return &tls.ConnectionState{VerifiedChains: [][]*x509.Certificate{{leaf, env.roleCA}}, PeerCertificates: []*x509.Certificate{leaf}}, true
 }
 
 func vfSameX509Key(certPEM []byte, submitted interface{}) string {
@@ -346,6 +379,9 @@ func (env *vfC10Env) submit(path, spec, mut string) string {
 	desc := "unparsable"
 	var parsed interface{}
 	extra := ""
+	if mut == "nokey" {
+		return env.submitNoKey(path, spec)
+	}
 	switch path {
 	case "ssh":
 		line, ok := vfSSHLine(spec)
@@ -543,6 +579,83 @@ func (env *vfC10Env) submit(path, spec, mut string) string {
 	return fmt.Sprintf("desc=%s%s status=%d samekey=%s certkey=%s", desc, extra, rr.Code, same, certkey)
 }
 
+// describeIssued: status and the key the returned certificate carries
+func vfDescribeIssued(path string, rr *httptest.ResponseRecorder) string {
+	certkey := "-"
+	if rr.Code == 200 {
+		certkey = "unreadable"
+		if path == "ssh" {
+			if ck, _, _, _, err := ssh.ParseAuthorizedKey(rr.Body.Bytes()); err == nil {
+				if cert, ok := ck.(*ssh.Certificate); ok {
+					if cck, ok := cert.Key.(ssh.CryptoPublicKey); ok {
+						certkey = vfDescribe(cck.CryptoPublicKey())
+					}
+				}
+			}
+		} else if block, _ := pem.Decode(rr.Body.Bytes()); block != nil && block.Type == "CERTIFICATE" {
+			if cert, err := x509.ParseCertificate(block.Bytes); err == nil {
+				certkey = vfDescribe(cert.PublicKey)
+			}
+		}
+	}
+	return fmt.Sprintf("status=%d samekey=- certkey=%s", rr.Code, certkey)
+}
+
+// a request on an issuing path that carries NO key at all (no file part, no form value, empty body). Whatever a
+// path then falls back to — the credential's own key, a directory, a command — is judged like any other key.
+// On the refresh path the presented credential itself carries the key `spec` describes.
+func (env *vfC10Env) submitNoKey(path, spec string) string {
+	state := env.state
+	var req *http.Request
+	var handler http.HandlerFunc
+	switch path {
+	case "ssh", "x509", "x509k8s":
+		typ := map[string]string{"ssh": "ssh", "x509": "x509", "x509k8s": "x509-kubernetes"}[path]
+		body := &bytes.Buffer{}
+		mw := multipart.NewWriter(body)
+		mw.WriteField("duration", "1h")
+		mw.Close()
+		req, _ = http.NewRequest("POST", "/certgen/username?type="+typ, body)
+		req.Header.Set("Content-Type", mw.FormDataContentType())
+		req.AddCookie(env.userCook)
+		handler = state.certGenHandler
+	case "aws":
+		req = httptest.NewRequest("POST", "/aws/requestRoleCertificate/v1", strings.NewReader(""))
+		req.Header.Set("claimed-arn", "arn:aws:iam::123456789012:role/TestRole")
+		req.Header.Set("presigned-method", "GET")
+		req.Header.Set("presigned-url", "https://sts.us-east-1.amazonaws.com/?Action=GetCallerIdentity&Version=2011-06-15&X-Amz-Signature=00")
+		handler = state.requestAwsRoleCertificateHandler
+	case "role", "refresh":
+		form := url.Values{}
+		if path == "role" {
+			form.Add("identity", "role1")
+			form.Add("requestor_netblock", "10.0.0.0/8")
+			form.Add("target_netblock", "192.168.0.174/32")
+			req, _ = http.NewRequest("POST", getRoleRequestingPath, strings.NewReader(form.Encode()))
+			req.AddCookie(env.admCook)
+			handler = state.roleRequetingCertGenHandler
+		} else {
+			cs, ok := env.credentialWithKey(spec)
+			if !ok {
+				return "bad-op"
+			}
+			req, _ = http.NewRequest("POST", refreshRoleRequestingCertPath, strings.NewReader(form.Encode()))
+			req.RemoteAddr = "10.1.2.3:4444"
+			req.TLS = cs
+			handler = state.refreshRoleRequestingCertGenHandler
+		}
+		req.Header.Add("Content-Length", strconv.Itoa(len(form.Encode())))
+		req.Header.Add("Content-Type", "application/x-www-form-urlencoded")
+	default:
+		return "bad-op"
+	}
+	rr, p := vfServe(handler, req)
+	if p != nil {
+		return "desc=absent re=0 status=PANIC samekey=- certkey=-"
+	}
+	return "desc=absent re=0 " + vfDescribeIssued(path, rr)
+}
+
 // a token aimed at one of the three token parsers reachable from a route
 func (env *vfC10Env) token(target, mode, arg string) string {
 	state := env.state
@@ -696,6 +809,22 @@ func TestVerifC10(t *testing.T) {
 			}
 			env.sshRE = re
 			io.emit("ok")
+		case len(f) == 2 && f[0] == "usecfg":
+			// from here on: a state read from a configuration file by the real loader, new options (hex JSON) switched on
+			js, ok := vfUnhex(f[1])
+			if !ok {
+				io.emit("bad-op")
+				continue
+			}
+			st, rep, err := vfLoadWithNewOptions(t, js)
+			if err != nil {
+				io.emit("load-error %s", strings.Join(strings.Fields(err.Error()), "_"))
+				continue
+			}
+			re := env.sshRE
+			env = vfC10EnvFromState(t, st)
+			env.sshRE = re
+			io.emit("cfg %s", rep)
 		case len(f) == 4 && f[0] == "key":
 			io.emit("%s", env.submit(f[1], f[2], f[3]))
 		case len(f) == 3 && f[0] == "extall":
